@@ -103,6 +103,10 @@ def run_check(pid, module, tier, seed, replay=None):
             if not o.ok:
                 merged[k]['bad'].append(o)
     violations = []; knowns = []
+    if os.environ.get('VERIF_LIST'):
+        # debugging aid: every obligation examined, one per line
+        for (rule, key), m in sorted(merged.items()):
+            print('OB %s %s:%s' % ('bad' if m['bad'] else 'ok ', rule, key))
     for (rule, key), m in merged.items():
         if m['bad']:
             full = '%s:%s' % (rule, key)
